@@ -67,6 +67,19 @@ func checkParsedURL(s *SchemaSpec, spec *URLSpec, u *jsonapi.URL) (string, strin
 		return "restype-not-in-schema", fmt.Sprintf("ResType %q is not a type of the schema", u.ResType)
 	}
 	callerRelative := spec != nil && spec.Corrupt == ""
+	if callerRelative {
+		// a list item with surrounding white space (" id", "name "): whether a parser reads it as the name or as an
+		// unknown name is not settled by the statement, so what the caller "validly asked for" is not judged then
+		for _, qp := range spec.Params {
+			if qp.Name == "sort" || qp.Name == "include" || strings.HasPrefix(qp.Name, "fields[") {
+				for _, it := range strings.Split(qp.Value, ",") {
+					if strings.TrimSpace(it) != it {
+						callerRelative = false
+					}
+				}
+			}
+		}
+	}
 	// field selection
 	if _, ok := u.Params.Fields[u.ResType]; !ok {
 		return "fields/no-entry-for-restype", fmt.Sprintf("no field selection entry for the resource type %q", u.ResType)
